@@ -35,10 +35,10 @@ SIZE = {"bool": 1, "char": 1, "schar": 1, "uchar": 1, "short": 2, "ushort": 2, "
 WIDTHS = [1, 7, 8, 15, 16, 31, 32, 33, 63, 64]
 # enum type objects of the probes: id -> (typedef name, base, enumerator list)
 ENUMS = {1: ("EU", "uint", "EU_A"), 2: ("EI", "int", "EI_A = -1"), 3: ("EUL", "ulong", "EUL_A = 0x100000000"),
-         4: ("EL", "long", "EL_A = -0x100000000"),
+         4: ("EL", "long", "EL_A = -0x100000000"), 5: ("ELL", "llong", None), 15: ("ELL2", "llong", None),
          11: ("EU2", "uint", "EU2_A"), 12: ("EI2", "int", "EI2_A = -1"), 13: ("EUL2", "ulong", "EUL2_A = 0x100000000"),
          14: ("EL2", "long", "EL2_A = -0x100000000")}
-TWIN = {1: 11, 2: 12, 3: 13, 4: 14}
+TWIN = {1: 11, 2: 12, 3: 13, 4: 14, 5: 15}
 BINOPS = {"lor": "||", "land": "&&", "eql": "==", "neq": "!=", "less": "<", "greater": ">", "leq": "<=", "geq": ">=",
           "bor": "|", "xor": "^", "band": "&", "add": "+", "sub": "-", "mod": "%", "mul": "*", "div": "/",
           "shl": "<<", "shr": ">>"}
@@ -295,7 +295,7 @@ def run_ka(ck):
                 spec_i.append((i, "eq"))
         elif kind == "commonreal":
             a, w1, b, w2 = f[1:5]
-            if valid_width(a, w1) and valid_width(b, w2) and c11_aty(a) and c11_aty(b) and oc not in ("fatal", "abort"):
+            if valid_width(a, w1) and valid_width(b, w2) and oc not in ("fatal", "abort"):
                 spec_q.append("Susual %s %s %s %s %s" % (a, w1, b, w2, oc))
                 spec_i.append((i, "1"))
         elif kind == "hasint":
@@ -331,7 +331,7 @@ def run_ka(ck):
     for i, ((line, kind), oc) in enumerate(zip(lines, out_c)):
         if kind == "commonreal" and oc in ("fatal", "abort"):
             f = line.split()
-            if c11_aty(f[1]) and c11_aty(f[3]) and valid_width(f[1], f[2]) and valid_width(f[3], f[4]):
+            if valid_width(f[1], f[2]) and valid_width(f[3], f[4]):
                 ck.violation({"kind": "ka-fatal", "target": last_targ(lines, i), "call": line, "code_answer": oc,
                               "what": "typecommonreal dies on valid C11 operand types"})
                 break
@@ -370,13 +370,6 @@ def valid_width(a, w):
     return 1 <= int(w) <= 8 * SIZE[b]
 
 
-def c11_aty(a):
-    """enum type objects a C11 program can create (no fixed underlying type)"""
-    if ":" not in a:
-        return True
-    return a.split(":")[1] in ("uint", "int", "ulong", "long")
-
-
 def ka_probe(line, targ):
     """a C probe that shows the same call through the binary, when there is an easy one"""
     f = line.split()
@@ -405,7 +398,10 @@ MEMBERS = [  # struct S1 members: (name, declared C, type prefix, member qualifi
 def preamble():
     d = []
     for i, (n, b, en) in ENUMS.items():
-        d.append("typedef enum { %s } %s;" % (en, n))
+        if en is None:   # C23 fixed underlying type (regression for fix 6d47956)
+            d.append("typedef enum : %s { %s_A } %s;" % (CNAME[b], n, n))
+        else:
+            d.append("typedef enum { %s } %s;" % (en, n))
     d.append("struct S0 { int x; }; struct S2 { int y; const int cy; }; union U0 { int x; long y; }; union U1 { int x; };")
     d.append("struct S1 { %s };" % " ".join(m[1] for m in MEMBERS))
     d.append("struct S3 { char c; };")
@@ -416,7 +412,7 @@ def leaves_arith(quick):
     ls = []
     for b in BASICS:
         ls.append(Leaf("v_%s" % b, "var 0 %s" % b, "%s v_%s;" % (CNAME[b], b), ("basic", b)))
-    for i in (1, 2, 3, 4):
+    for i in (1, 2, 3, 4, 5):
         n, b, _ = ENUMS[i]
         ls.append(Leaf("v_%s" % n, "var 0 e%d:%s" % (i, b), "%s v_%s;" % (n, n), ("enum", b)))
     ls.append(Leaf("EU_A", "rv int", None, ("enumconst", "int")))
@@ -650,8 +646,8 @@ def model_types(ck, targ, probes):
 def twin_type(a):
     """a type that is compatible with `a` iff `a` is the basic type (not the enum type object):
     the twin enum over the same base; None if no such discriminator exists"""
-    if a[0] == "b" and a[1] in ("uint", "int", "ulong", "long"):
-        i = {"uint": 11, "int": 12, "ulong": 13, "long": 14}[a[1]]
+    if a[0] == "b" and a[1] in ("uint", "int", "ulong", "long", "llong"):
+        i = {"uint": 11, "int": 12, "ulong": 13, "long": 14, "llong": 15}[a[1]]
         return ("e", i, a[1]), 1
     if a[0] == "e" and a[1] in TWIN:
         return ("e", TWIN[a[1]], a[2]), 0
@@ -694,8 +690,6 @@ def run_cproc(cc, targ, path):
 
 def classify(p):
     """finding id of a probe class that is a known/reported deviation, else None"""
-    if p.cls[0] == "npc-qualified-void" or "(const void*)0" in p.c:
-        return "npc-qualified-void"
     return None
 
 
@@ -1004,8 +998,6 @@ def run_kb_compat(ck):
 FINDINGS = [
     ("enum-bool-range", "enum E : _Bool { A = 2 };\nint x = A;\n",
      lambda rc, out: rc == 0, "enumerator 2 accepted for an enum with underlying type _Bool (typehasint treats _Bool as 8 bits)"),
-    ("enum-llong-commonreal", "enum E : long long { A } e; unsigned long u;\nunsigned long s = sizeof(e + u);\n",
-     lambda rc, out: rc != 0, "typecommonreal dies: internal error; could not find common real type"),
 ]
 
 
@@ -1061,8 +1053,8 @@ def run(ck):
 META = {
     "category": "proof",
     "text": ("Lean 4 theorems over a model of type.c / targ.c / the typing code of expr.c / decl.c:tagspec, for all inputs: "
-             "typepromote = 6.3.1.1p2 by value range for every type object and bit-field width; typecommonreal satisfies "
-             "6.3.1.8 (NoLLEnum); typehasint decides range membership for every 64-bit pattern (t != _Bool); inttype = first "
+             "typepromote = 6.3.1.1p2 by value range for every type object and bit-field width; typecommonreal = the "
+             "common real type of 6.3.1.8; typehasint decides range membership for every 64-bit pattern (t != _Bool); inttype = first "
              "type of the 6.4.4.1p5 list for every value < 2^64, base and suffix incl. the no-type error; every binary "
              "operator, ?:, unary + - ~, sizeof, member qualifiers, decay, typeadjust; typecompatible is reflexive, "
              "symmetric, sound and complete w.r.t. an inductive 6.2.7 relation; enum facts; target facts; tables "
@@ -1072,8 +1064,6 @@ META = {
     "design_ref": "DESIGN.md section 4, C05",
     "note": ("Trusted: Lean kernel + propext/Classical.choice/Quot.sound; the hand-written model (tied exhaustively on the finite "
              "core, by probes elsewhere); clang as oracle for the Spec; the C parser is exercised only through K-B.  Partial: "
-             "commonreal/binop/cond exclude enum types over long long (C23 fixed underlying type; cproc dies), hasint excludes "
-             "_Bool, (const void*)0 is taken for a null pointer constant (cast_nullconst_counterexample); composite types are "
-             "not built (D2)."),
+             "hasint excludes _Bool (hasint_counterexample, finding enum-bool-range); composite types are not built (D2)."),
     "technique": "Lean 4 proof (range reasoning, case analysis over the type objects, structural induction on the type AST) + exhaustive in-process correspondence + black-box _Generic probes",
 }
